@@ -13,6 +13,7 @@ Definition obs_eqb (a b : obs) : bool :=
   | BNoChan, BNoChan => true
   | BPush x, BPush y => push_eqb x y
   | BDeliver x, BDeliver y => zlist_eqb x y
+  | BDeliverSeq x, BDeliverSeq y => list_eqb zlist_eqb x y
   | _, _ => false
   end.
 
@@ -29,6 +30,8 @@ Fixpoint monitor_from (hist : list op) (ops : list op) (bs : list obs) : bool :=
        | OGet c, BBool x => Bool.eqb x (exists_after hist c)
        | OFront live closing l, BDeliver d => zlist_eqb d (filter (fun i => zmem i live && negb (zmem i closing)) l)
        | ODirect f l, BPush p => push_eqb p [(f, l)]
+       | OFrontSeq live ps, BDeliverSeq ds =>
+           list_eqb zlist_eqb ds (map (fun p => filter (fun i => zmem i live && negb (zmem i (snd p))) (fst p)) ps)
        | (OAddChannel _ | OAdd _ _ _ | OLeave _ _ _ | ODelete _), BUnit => true
        | _, _ => false
        end) && monitor_from (hist ++ [o]) r br
